@@ -139,7 +139,8 @@ CLAIMS = {
              "_answered, _any_engine; instance c04w_arith_iff: the arithmetic grammar on EVERY input, any offset, any engine); "
              "outside these fragments the harness's derivation oracle "
              "decides the IF direction per case (known finding D9: Name/Single over Optional).",
-        note="c04_sentence_sound needs Scope (no trims, TermGood terminals); c04_xor needs nothing.",
+        note="Evaluate / EvaluateNode and the interpreters Select / Array / Object / Nil are translated from /repo on every run and proved to agree with the model (Props/C04P.lean: c04_translated_evaluate; c04_translated_no_panic restates c04_eval about the translated code). "
+             "c04_sentence_sound needs Scope (no trims, TermGood terminals); c04_xor needs nothing.",
         technique="Lean 4 theorems over the parse/evaluate model (case analysis of Parse, derivation inversion for Sentence, induction for the evaluator) + oracle on the real Parse/Evaluate under recover + differential correspondence"),
     "C05": dict(
         text="Machine-checked proof (Lean 4) of the FULL value theorem on the model: for the closed term Garith - the arithmetic grammar "
@@ -294,7 +295,8 @@ CLAIMS = {
              "evaluation hands each interpreter exactly its node and Select/Array/Object index as documented (c13_eval_*). Tied to "
              "parsley/walk.go, static_check.go, transform.go, evaluate.go and the ast package by a differential run on random trees built "
              "with the real constructors.",
-        note="Checker, transformer and custom interpreter behaviour are universally quantified functions; Go interface dispatch "
+        note="TIED BY TRANSLATION (Props/C13P.lean): parsley.Walk / StaticCheck / Transform, the NonTerminalNode / NodeList / EmptyNode / TerminalNode methods they call and interpreter.Select are translated from /repo on every run (factgen -out-tree -> Generated/FactsTree.lean; *NonTerminalNode cells on a heap, type assertions as capability tests computed from method sets, user checkers / transformers a world parameter) and proved to agree with the model on every tree-shaped heap without sharing (c13_translated_walk - the exact post-order visit sequence with early stop -, c13_translated_visits - every node once -, c13_translated_check, c13_translated_transform); 31 semantic edits each break a tie, 17 equivalent rewrites do not. "
+             "Checker, transformer and custom interpreter behaviour are universally quantified functions; Go interface dispatch "
              "(Walkable/StaticCheckable/Transformable) is transcribed by hand.",
         technique="Lean 4 theorems by mutual structural induction over trees against independent specifications + differential correspondence"),
     "C14": dict(
